@@ -89,7 +89,11 @@ def run(case):
         if case.get("reset"):
             resetters = managers.CycleResetHeuristic().args_for_thermohydraulic_solver(rec)["resetters"]
         try:
-            solver.solve_receiver(rec, mat, fluid, decorator=lambda x, n: x, nthreads=1, resetters=resetters)
+            if case.get("page"):
+                import os, tempfile
+                os.chdir(tempfile.mkdtemp(prefix="c07_", dir=os.getcwd()))
+                rec.set_paging(True)
+            solver.solve_receiver(rec, mat, fluid, decorator=lambda x, n: x, nthreads=case.get("nthreads", 1), resetters=resetters)
         except ValueError as e:
             import traceback
             tb = traceback.extract_tb(e.__traceback__)
